@@ -17,11 +17,13 @@ import (
 
 	"github.com/moov-io/ach"
 
+	"verifharness/internal/gen"
 	"verifharness/internal/hx"
 	"verifharness/internal/rng"
 )
 
 func main() {
+	gen.AllowBatchOnly = true // in-memory operations: options may sit on the batches alone
 	if len(os.Args) < 2 {
 		fmt.Fprintln(os.Stderr, "usage: c12 corr|oracle|replay ...")
 		os.Exit(2)
